@@ -30,6 +30,19 @@ Theorem C02b_failed_call_changes_nothing : forall b s o,
 Proof. exact failed_unchanged. Qed.
 Print Assumptions C02b_failed_call_changes_nothing.
 
+(* an upsert during which the meter factory fails: for a server the rebalancer does not know yet the call fails and
+   changes nothing (the inner balancer's upsert is rolled back); for a known server no meter is needed and the call is
+   the ordinary upsert *)
+Theorem C02b_failed_meter_changes_nothing : forall b s k has w,
+  (find_srv (shadow s) k = None ->
+     xstep b s [4; k; has; w] = (s, obs 1 s)) /\
+  (find_srv (shadow s) k <> None ->
+     xstep b s [4; k; has; w] = step b s (Upsert k (if has =? 0 then None else Some w))).
+Proof. intros b s k has w. cbn [xstep]. unfold upsert_meter_fails. split.
+  - intros ->. reflexivity.
+  - destruct (find_srv (shadow s) k); [reflexivity|congruence]. Qed.
+Print Assumptions C02b_failed_meter_changes_nothing.
+
 (* removing an unknown server fails, after every history *)
 Theorem C02b_unknown_remove_fails : forall b ops k,
   let s := exec (step b) init ops in
